@@ -474,6 +474,26 @@ fn handle(t: &[&str]) -> Option<String> {
     if t.len() >= 2 && t[0] == "big" {
         return big_op(t[1], &t[2..]);
     }
+    if t.len() >= 2 && t[0] == "misc" {
+        // glue around the core: Display for Semantics, RoundingMode::as_string, get_decimal_accuracy,
+        // BigInt::pseudorandom (the LFSR of utils.rs), BigInt::default
+        return match (t[1], &t[2..]) {
+            ("sem", [s]) => {
+                let f = parse_sem(s)?;
+                let z = Float::zero(f, false);
+                Some(format!("{}|{}|{}", f, f.get_rounding_mode().as_string(), z.get_decimal_accuracy()))
+            }
+            ("prand", [parts, seed]) => {
+                let b = BigInt::pseudorandom(parts.parse().ok()?, seed.parse().ok()?);
+                Some(format!("{} {}", b.len(), show_big(&b)))
+            }
+            ("default", []) => {
+                let b = BigInt::default();
+                Some(format!("{} {}", b.len(), show_big(&b)))
+            }
+            _ => None,
+        };
+    }
     if !t.is_empty() && t[0] == "prog" {
         return run_prog(&t[1..]);
     }
@@ -673,7 +693,7 @@ fn handle(t: &[&str]) -> Option<String> {
             let st = String::from_utf8(bytes).ok()?;
             let show = |r: Result<Float, _>| match r {
                 Ok(x) => format!("ok {}", show_flt(&x)),
-                Err::<Float, _>(_) => "err".to_string(),
+                Err::<Float, _>(e) => all_same(&[format!("err {}", e), format!("err {:?}", e)]),
             };
             let mut sp = vec![show(Float::try_from_str(&st, f))];
             if f == arpfloat::FP64 {
